@@ -56,6 +56,10 @@ CHECKS = {
             "TLC enumerates every program of up to 4-5 items (var/let/const declarations, uses, arrow-head look-alikes, and brackets of nine scope kinds -- function declarations/expressions, arrows, blocks, for-let/for-var heads, catch, class declarations/expressions -- with parameter lists and defaults) over two names, and samples larger programs over three names; for each it computes which binding every identifier occurrence denotes under the ECMAScript rules the statement lists, or that the program must be rejected; the harness parses the spelled program, gives every declared Var a fresh name, prints, reads the identifiers back in order, re-parses the renamed text and compares Uses with printed occurrences; TLC validates that the observed partition is isomorphic to the oracle's.",
             "Programs whose treatment the statement leaves open are not generated (listed in the evidence assumptions). Four recorded findings (class-expression names, default naming a later parameter, use-before-let in a for-var loop body, body use merged with a same-named outer reference in a parameter default).",
             "DESIGN.md §4 C04"),
+    "C20": ("TLA+ interleaving spec Isolation.tla model-checked over package-level access facts extracted from the current source (GlobalsGen.tla, generated); concurrent executions under the Go race detector and history-independence runs validated by TLC (IsolationTrace.tla)",
+            "The harness extracts from /repo's current source every package-level variable and every function outside init that writes, reads or passes one on, and emits them as a TLA+ module; TLC checks NonInterference and RaceFree for all interleavings of three goroutines; the decisive part are executions: eleven kinds of entry-point tasks on private data run by 2-16 goroutines at GOMAXPROCS 1-16 with seeded perturbation under -race, each result compared with its solo result, plus history runs (after unrelated calls, reversed, second process); TLC validates every per-goroutine log, the race detector's verdict and the history digests.",
+            "The race detector observes only schedules that occur; the static extraction is syntactic. A write found only by the model is reported as a candidate in the evidence, not as a violation.",
+            "DESIGN.md §4 C20"),
 }
 NOT_APPLICABLE = {
 }
